@@ -107,6 +107,10 @@ type runner struct {
 }
 
 func (x *runner) baseOf(shift int) int64 {
+	if shift == len(shifts) {
+		// the recent past: the log starts 100 s before the wall clock (TTLs of seconds are due, of minutes not)
+		return time.Now().UnixNano() - 100*sec
+	}
 	return x.baseNow + shifts[shift]*365*86400*sec
 }
 
@@ -322,6 +326,30 @@ func (x *runner) run(l *Log, v *Variant) (*runOut, error) {
 			out.part = v.Part
 			x.applyPart(s, l, 0, n, v.Part, v.Replay, v.Syncer, base, &next, out)
 		}
+	} else if v.Rewind >= v.Cut && v.Rewind <= n {
+		// a RUNNING replica installs a checkpoint: entries [0,Rewind) live with a checkpoint taken at Cut,
+		// then the checkpoint is restored on the same store and the log is replayed from Cut
+		p1, p2 := splitPart(v.Part, v.Cut)
+		x.applyPart(s, l, 0, v.Cut, p1, false, v.Syncer, base, &next, out)
+		bi := s.Store.Backup(1, uint64(v.Cut)+1)
+		for try := 0; bi == nil && try < 200; try++ {
+			time.Sleep(2 * time.Millisecond)
+			bi = s.Store.Backup(1, uint64(v.Cut)+1)
+		}
+		if bi == nil {
+			return nil, fmt.Errorf("backup refused")
+		}
+		if _, err := bi.GetResult(); err != nil {
+			return nil, fmt.Errorf("backup: %v", err)
+		}
+		pm, _ := splitPart(p2, v.Rewind-v.Cut)
+		scratch := &runOut{replies: make([]string, n), kinds: make([]string, n), own: make([]string, n)}
+		x.applyPart(s, l, v.Cut, v.Rewind, pm, false, v.Syncer, base, &next, scratch)
+		if err := s.Store.Restore(1, uint64(v.Cut)+1); err != nil {
+			return nil, fmt.Errorf("restore: %v", err)
+		}
+		x.applyPart(s, l, v.Cut, n, p2, true, v.Syncer, base, &next, out)
+		out.part = append(append([][]Call{}, p1...), p2...)
 	} else {
 		// prefix live on store A, checkpoint, restore into a NEW store B, tail replayed there
 		p1, p2 := splitPart(v.Part, v.Cut)
@@ -360,6 +388,20 @@ func (x *runner) run(l *Log, v *Variant) (*runOut, error) {
 		out.part = append(append([][]Call{}, p1...), p2...)
 	}
 	out.dump = dump(s, l.universe(), l.pfKeys())
+	if pure := l.purePfKeys(); len(pure) > 0 {
+		// PFCOUNT of every pure PFADD target after a final flush + restart (checkpoint, restore into a new store):
+		// whatever the flush points during the run were, the sketches that reach the disk must be the same
+		if s3, err := restartCopy(s, uint64(n)+1000); err == nil {
+			var p []string
+			for _, k := range pure {
+				p = append(p, "pfr("+hx.H(k)+")="+s3.Read(bs("pfcount"), k))
+			}
+			out.dump += " || " + strings.Join(p, " || ")
+			s3.Close()
+		} else {
+			out.dump += " || pfr=err:" + err.Error()
+		}
+	}
 	rawLines := s.RawDump()
 	h := sha1.New()
 	for _, ln := range rawLines {
@@ -655,4 +697,33 @@ func (x *runner) hllProbe(trials int) ([]string, error) {
 		s.Close()
 	}
 	return vals, nil
+}
+
+// restartCopy: flush + checkpoint of s, restored into a NEW store (what a restarted or newly joined replica reads).
+func restartCopy(s *smx.SM, idx uint64) (*smx.SM, error) {
+	bi := s.Store.Backup(3, idx)
+	for try := 0; bi == nil && try < 200; try++ {
+		time.Sleep(2 * time.Millisecond)
+		bi = s.Store.Backup(3, idx)
+	}
+	if bi == nil {
+		return nil, fmt.Errorf("backup refused")
+	}
+	if _, err := bi.GetResult(); err != nil {
+		return nil, err
+	}
+	s2, err := smx.Open(s.Engine, s.Policy)
+	if err != nil {
+		return nil, err
+	}
+	ck := rockredis.GetCheckpointDir(3, idx)
+	if err := copyDir(filepath.Join(s.Store.GetBackupDir(), ck), filepath.Join(s2.Store.GetBackupDir(), ck)); err != nil {
+		s2.Close()
+		return nil, err
+	}
+	if err := s2.Store.Restore(3, idx); err != nil {
+		s2.Close()
+		return nil, err
+	}
+	return s2, nil
 }
